@@ -1365,6 +1365,8 @@ def _finalize_results(
 
     # Final reindexing has to be here to be lazy
     if not reindex.blockwise and expected_groups is not None:
+        # cast first: e.g. the boolean result of any/all cannot hold an integer fill_value
+        finalized[agg.name] = finalized[agg.name].astype(agg.dtype["final"], copy=False)
         finalized[agg.name] = reindex_(
             finalized[agg.name],
             squeezed["groups"],
